@@ -13,6 +13,12 @@ Open Scope Z_scope.
 UNIVERSES = ["self", "tuple", "spec", "intkey"]
 
 
+class FalsyTuple(tuple):
+    """a tuple (equal to and hashing like the plain one) whose truth value is its payload's"""
+    def __bool__(self):
+        return bool(self[1])
+
+
 # ------------------------------------------------------------------ implementation side
 class Impl:
     def __init__(self, universe, typed):
@@ -45,7 +51,9 @@ class Impl:
             return self.Other(k=f"k{k}", p=9) if p == 9 else self.Item(k=f"k{k}", p=p)
         if p == 9:
             return [k, 9]
-        return ("nine", p) if k == 9 else (k, p)
+        # int-keyed universe: tuples that are FALSY when their payload is 0 (a stored item may be
+        # falsy: `x or default`, `if item:` slips)
+        return FalsyTuple(("nine", p) if k == 9 else (k, p))
 
     def keyarg(self, kp):
         k, p = kp
